@@ -204,7 +204,168 @@ func genC04(g *Gen) error {
 		}
 	}
 	g.StrList("modelledSites", msites)
+	if err := genC04Refs(g); err != nil {
+		return err
+	}
 	g.Footer()
+	return nil
+}
+
+// genC04Refs: who reads a data file, and what keeps the file open meanwhile.
+//
+// A TSSPFile whose reference count is 1 (only the list holds it) is closed and unlinked by the
+// step that replaces it (ReplaceFiles / deleteUnorderedFiles -> deleteFiles: !Inuse -> Remove), and a
+// closed reader answers several accessors with nothing and no error (LoadIdTimes), so every read
+// must happen inside a Ref ... Unref bracket of the reader or under the list lock. Two tables:
+//
+//   - goFileReaders: every `go` statement of the scanned files that hands a file to a goroutine
+//     (function literal with a TSSPFile parameter): does the spawning function take a reference
+//     (x.Ref()) on that very file before the `go`, and does the goroutine give it back in a defer;
+//   - fileReadSites: every call of a reading accessor on a file that is not the method's own
+//     receiver: function, accessor, and the protection visible in that function (refs: the function
+//     itself calls Ref / RefFileReader / GetBothFilesRef; listlock: it takes a TSSPFiles lock;
+//     none-visible: neither - the caller has to provide it, which is recorded and judged in
+//     OG/C04/Facts.lean).
+func genC04Refs(g *Gen) error {
+	files := []string{
+		"engine/immutable/mms_loader.go", "engine/immutable/mms_tables.go", "engine/immutable/ts_mms_tables.go",
+		"engine/immutable/compact.go", "engine/immutable/merge_out_of_order.go", "engine/immutable/merge_tool.go",
+		"engine/immutable/evict.go", "engine/immutable/sequencer.go", "engine/iterators.go", "engine/ts_storage.go",
+		"engine/shard.go", "engine/ts_index_info.go",
+	}
+	readers := map[string]bool{"LoadIdTimes": true, "ReadData": true, "ReadChunkMetaData": true, "MetaIndex": true,
+		"MetaIndexAt": true, "ChunkMeta": true, "ReadAt": true, "Contains": true, "ContainsValue": true,
+		"ContainsByTime": true, "MinMaxTime": true, "LoadComponents": true, "LoadIntoMemory": true}
+	var goRows, readRows [][2]string
+	for _, rel := range files {
+		f, err := g.Parse(rel)
+		if err != nil {
+			continue // a file that does not exist (any more) simply contributes nothing
+		}
+		for _, d := range f.Decls {
+			fd, ok := d.(*ast.FuncDecl)
+			if !ok || fd.Body == nil {
+				continue
+			}
+			name := fd.Name.Name
+			recvVar := ""
+			if fd.Recv != nil && len(fd.Recv.List) == 1 {
+				name = typeName(fd.Recv.List[0].Type) + "." + name
+				if len(fd.Recv.List[0].Names) == 1 {
+					recvVar = fd.Recv.List[0].Names[0].Name
+				}
+			}
+			// protection visible in the function
+			refs, listlock := false, false
+			ast.Inspect(fd.Body, func(n ast.Node) bool {
+				if call, ok := n.(*ast.CallExpr); ok {
+					if sel, ok := call.Fun.(*ast.SelectorExpr); ok {
+						switch sel.Sel.Name {
+						case "Ref", "RefFileReader", "GetBothFilesRef", "RefFilesReader":
+							refs = true
+						case "RLock", "Lock":
+							if x := g.Src(sel.X); strings.HasSuffix(x, ".lock") || strings.HasSuffix(x, "iles") {
+								listlock = true
+							}
+						}
+					}
+				}
+				return true
+			})
+			prot := "none-visible"
+			switch {
+			case refs && listlock:
+				prot = "refs+listlock"
+			case refs:
+				prot = "refs"
+			case listlock:
+				prot = "listlock"
+			}
+			// blocks, to find what precedes a go statement
+			var walkBlock func(list []ast.Stmt)
+			walkBlock = func(list []ast.Stmt) {
+				for i, st := range list {
+					if gs, ok := st.(*ast.GoStmt); ok {
+						if fl, ok := gs.Call.Fun.(*ast.FuncLit); ok && fl.Type.Params != nil {
+							for pi, prm := range fl.Type.Params.List {
+								if typeName(prm.Type) != "TSSPFile" || pi >= len(gs.Call.Args) {
+									continue
+								}
+								arg := g.Src(gs.Call.Args[pi])
+								refBefore := false
+								for _, prev := range list[:i] {
+									if es, ok := prev.(*ast.ExprStmt); ok && g.Src(es.X) == arg+".Ref()" {
+										refBefore = true
+									}
+								}
+								unrefDeferred := false
+								pname := ""
+								if len(prm.Names) == 1 {
+									pname = prm.Names[0].Name
+								}
+								ast.Inspect(fl.Body, func(n ast.Node) bool {
+									if ds, ok := n.(*ast.DeferStmt); ok && strings.Contains(g.Src(ds.Call), pname+".Unref()") {
+										unrefDeferred = true
+									}
+									return true
+								})
+								goRows = append(goRows, [2]string{name + ": go func(" + pname + " TSSPFile)(" + arg + ")",
+									fmt.Sprintf("ref before go=%v, unref deferred in the goroutine=%v", refBefore, unrefDeferred)})
+							}
+						}
+					}
+					ast.Inspect(st, func(n ast.Node) bool {
+						switch b := n.(type) {
+						case *ast.BlockStmt:
+							if n != st {
+								walkBlock(b.List)
+								return false
+							}
+						case *ast.CaseClause:
+							walkBlock(b.Body)
+							return false
+						case *ast.CommClause:
+							walkBlock(b.Body)
+							return false
+						case *ast.FuncLit:
+							walkBlock(b.Body.List)
+							return false
+						}
+						return true
+					})
+				}
+			}
+			walkBlock(fd.Body.List)
+			seen := map[string]bool{}
+			ast.Inspect(fd.Body, func(n ast.Node) bool {
+				call, ok := n.(*ast.CallExpr)
+				if !ok {
+					return true
+				}
+				sel, ok := call.Fun.(*ast.SelectorExpr)
+				if !ok || !readers[sel.Sel.Name] {
+					return true
+				}
+				x := g.Src(sel.X)
+				if x == "strings" || x == "bytes" {
+					return true
+				}
+				if x == recvVar || strings.HasPrefix(x, recvVar+".") && recvVar != "" {
+					return true // the object's own method calling down
+				}
+				key := name + ": " + x + "." + sel.Sel.Name
+				if !seen[key] {
+					seen[key] = true
+					readRows = append(readRows, [2]string{key, prot})
+				}
+				return true
+			})
+		}
+	}
+	g.P("/-- goroutines that are handed a data file: is it referenced before the `go`, released in a defer. -/")
+	g.PairList("goFileReaders", goRows)
+	g.P("/-- calls of reading accessors on a data file and the protection visible in the calling function. -/")
+	g.PairList("fileReadSites", readRows)
 	return nil
 }
 
